@@ -17,6 +17,8 @@ Vocabulary (defined in the Proofs files, all explicit):
 * `s.mVal i b`       — degree m(i,i+1,b) = r·v of a symbol with valid tables
 -/
 import DSymVerif.Proofs.CoversWitness
+import DSymVerif.Proofs.CoversOrientedDeg
+import DSymVerif.Proofs.CoversMonitors
 
 namespace DSymVerif.C05
 open DSymVerif.DS DSymVerif.Covers DSymVerif.C05W
@@ -197,6 +199,33 @@ theorem oriented_cover_covering (s : DSymData) (hs : ValidTables s) (hsz : 1 ≤
 
 example : ValidTables sym1 ∧ 1 ≤ sym1.size ∧ 1 ≤ sym1.dim := ⟨sym1_valid, by decide, by decide⟩
 
+/-- **oriented_cover_oriented.**  On every symbol with valid tables `oriented_cover` returns a
+    symbol that `is_oriented()` (no operation fixes a chamber, and `is_weakly_oriented()` — which
+    by `isWeaklyOriented_iff` of Proofs/DSetOrient.lean means the chamber graph is bipartite),
+    with one sheet if the base is oriented and two otherwise.  (Uses that `partial_orientation`
+    signs every chamber: completeness of the traversal.) -/
+theorem oriented_cover_oriented (s : DSymData) (hs : ValidTables s) (hsz : 1 ≤ s.size) (hdim : 1 ≤ s.dim) :
+    ∃ c, orientedCover s = .ok c ∧ c.view.isOriented = true ∧ c.dim = s.dim ∧
+      c.size = (if s.view.isOriented then 1 else 2) * s.size :=
+  orientedCover_oriented s hs hsz hdim
+
+/-- **oriented_cover_preserves_degrees.**  For `oriented_cover` the premise of the degree clause
+    of `cover_is_covering` always holds: the orbit lengths of the double cover equal those of the
+    base (a 2-colouring flips across every edge, so the holonomy of every closed walk
+    (op_{i+1} ∘ op_i)^r is trivial).  Hence on a non-oriented base with valid tables the result
+    has, at every chamber and adjacent index pair, exactly the `r`, `v` and `m` of the base at the
+    projected chamber.  (For an oriented base the result is the base itself.) -/
+theorem oriented_cover_preserves_degrees (s : DSymData) (hs : ValidTables s) (hsz : 1 ≤ s.size)
+    (hdim : 1 ≤ s.dim) (ho : s.view.isOriented = false) :
+    ∃ c, orientedCover s = .ok c ∧ c.size = 2 * s.size ∧ c.dim = s.dim ∧ ValidTables c ∧
+      ∀ i d, i < s.dim → 1 ≤ d → d ≤ 2 * s.size →
+        c.rPartial i (i + 1) d = s.rPartial i (i + 1) (cproj s.size d) ∧
+        c.vPartial i (i + 1) d = s.vPartial i (i + 1) (cproj s.size d) ∧
+        c.mPartial i (i + 1) d = s.mPartial i (i + 1) (cproj s.size d) :=
+  orientedCover_degrees s hs hsz hdim ho
+
+example : sym1.view.isOriented = false := by decide
+
 /-! ### 5. `cover_for_table` -/
 
 /-- **cover_for_table_compat.**  If the coset table is inverse-consistent with images in range
@@ -251,5 +280,22 @@ example : (⟨0, #[#[-1]]⟩ : Table).InvConsistent ∧ EdgeWordsOk sym1 ⟨0, #
         cases hg
   · intro i d _ _ _
     exact Or.inl rfl
+
+/-! ### 6. the hypotheses are decidable and are evaluated by the driver on every explored input -/
+
+/-- The Boolean monitors of Model/Covers.lean imply the hypotheses of the theorems above
+    (`sheetCompatB` is even equivalent to `SheetCompat`), so "`validTablesB y`,
+    `sheetCompatB …`, `invConsistentB t`, `edgeWordsOkB …`, `allTracesDefined …` evaluated to
+    true" on a run means the theorems apply to exactly that input. -/
+theorem monitors_sound :
+    (∀ y, validTablesB y = true → ValidTables y) ∧
+    (∀ ds n σ, sheetCompatB ds n σ = true ↔ SheetCompat ds n σ) ∧
+    (∀ t, invConsistentB t = true → t.InvConsistent) ∧
+    (∀ s t e2w, edgeWordsOkB s t e2w = true → EdgeWordsOk s t e2w) :=
+  ⟨fun _ h => validTablesB_sound h, fun _ _ _ => sheetCompatB_iff,
+   fun _ h => invConsistentB_sound h, fun _ _ _ h => edgeWordsOkB_sound h⟩
+
+example : validTablesB sym1 = true ∧ sheetCompatB sym1.dset 2 swap2 = true ∧
+    invConsistentB ⟨0, #[#[-1]]⟩ = true ∧ edgeWordsOkB sym1 ⟨0, #[#[-1]]⟩ [] = true := by decide +kernel
 
 end DSymVerif.C05
